@@ -6,7 +6,7 @@ import os
 import struct
 
 from vf.core import SECTOR, Model, as_handle, rng_for
-from vf.diskcheck import compare_reads, crossing_count, gen_requests, mismatch_detail
+from vf.diskcheck import compare_reads, continuation_reads, crossing_count, gen_requests, mismatch_detail
 from vf.monitors import call
 from vf.writers import vhd as w
 
@@ -47,6 +47,8 @@ def plan(tier: str, seed: int) -> list[dict]:
                       "bitmaps": rng.choice(["ones", "ones", "random", "zeros"]), "weight": 1 + (bs * n >> 20)})
     for i in range(24 if tier == "quick" else 2000):
         cases.append({"k": "fixed", "i": i, "legacy": i % 2 == 1})
+    for i in range(10 if tier == "quick" else 300):
+        cases.append({"k": "twin", "i": i})
     for f in ("dynamic.vhd.gz", "fixed.vhd.gz"):
         cases.append({"k": "fixture", "name": f, "weight": 20})
     return cases
@@ -112,10 +114,35 @@ def run(case: dict, ctx) -> dict:
         res["sig"] = ("fixture", case["name"])
         res["sample"] = {"fixture": case["name"], "size": model.size, "n_requests": len(reqs)}
         return res
+    if k == "twin":
+        # images sharing one unique id (the same disk at different times) opened one after the other in this process
+        uid = bytes(rng.randrange(256) for _ in range(16))
+        bs = rng.choice([512, 4096, 65536])
+        n = rng.randrange(2, 20)
+        opened = []
+        for t in range(3):
+            st_ = [rng.choice("AAU") for _ in range(n)]
+            sf, layer, meta = w.build_dynamic(rng, block_size=bs, nblocks=n, states=st_, placement="shuffle", tag=rng.getrandbits(48), uid=uid)
+            o = call(VHD, as_handle(sf.to_bytes()))
+            if not o.ok:
+                res["viol"].append({"what": f"open failed on conformant image: {o.brief()}", "mech": MECH, "detail": {"tb": o.tb}})
+                return res
+            opened.append((o.value, Model(meta["size"], [layer])))
+            for v_, m_ in opened:
+                reqs, _ = gen_requests(rng, m_.size, [bs], n_random=10, pair_cap=30)
+                compare_reads(v_, m_, reqs, res, MECH)
+        res["cnt"]["same_id_twin_images"] = len(opened)
+        res["nontrivial"] = True
+        res["sig"] = ("twin", case["i"])
+        res["sample"] = {"twin_images_sharing_one_unique_id": len(opened), "block_size": bs}
+        return res
     if k == "fixed":
         nsec = rng.choice([1, 2, 15, 16, 17, rng.randrange(1, 400), rng.randrange(1, 5000)])
         nested = rng.choice([None, None, "dynamic", "fixed"])
-        sf, layer, meta = w.build_fixed(rng, nsectors=nsec, legacy=case["legacy"], tag=rng.getrandbits(48), nested=nested)
+        # a disk resized after creation records a different original size
+        orig = rng.choice([None, None, SECTOR * rng.randrange(1, 9000), nsec * SECTOR * 2])
+        sf, layer, meta = w.build_fixed(rng, nsectors=nsec, legacy=case["legacy"], tag=rng.getrandbits(48), nested=nested, orig_size=orig)
+        res["cnt"]["resized_disks"] = int(orig is not None)
         res["cnt"]["fixed_with_nested_vhd_content"] = int(nested is not None)
         units = [SECTOR, 8192]
     else:
@@ -126,6 +153,7 @@ def run(case: dict, ctx) -> dict:
             rng, block_size=bs, nblocks=n, tail_cut_sectors=tail, placement=case["placement"], bitmaps=case["bitmaps"],
             tag=rng.getrandbits(48), header_off=rng.choice([512, 512, 1024, 512 * rng.randrange(1, 40)]),
             table_gap=rng.choice([0, 0, 1, 7]), extra_entries=rng.choice([0, 0, 1, 5]),
+            orig_size=rng.choice([None, None, bs * rng.randrange(1, 3 * n + 2), SECTOR * rng.randrange(1, 100)]),
         )
         units = [bs]
     model = Model(meta["size"], [layer])
@@ -143,6 +171,7 @@ def run(case: dict, ctx) -> dict:
     if v.size != meta["size"]:
         res["viol"].append({"what": "size mismatch", "mech": MECH, "detail": {"got": v.size, "exp": meta["size"]}})
     reqs, exhaustive = gen_requests(rng, meta["size"], units, n_random=40 if ctx.tier == "quick" else 150)
+    continuation_reads(v, model, reqs, rng, res, MECH)
     compare_reads(v, model, reqs, res, MECH)
     # sector interface inside the disk
     nsec_total = meta["size"] // SECTOR
